@@ -14,9 +14,13 @@
 (* While enumerating, TLC checks the abstract/concrete consistency        *)
 (* (ConsistentFirst) and the spelling laws (SpellingKeepsCanonicalForm).  *)
 (***************************************************************************)
-EXTENDS Wire, Json
+EXTENDS Wire, Json, IOUtils
 
 CONSTANTS Family, Bound
+
+\* campaign R: logical requests proposed by the harness's seeded generator (no expectations, no canonical
+\* forms); TLC signs them with the reference signer and applies the proposed tampering
+Logical == ndJsonDeserialize(IOEnv.LOGICAL)
 VARIABLE idx
 
 Bool(k) == k = 2
@@ -122,7 +126,8 @@ Inject(b, d, w) ==      \* w = witness number (1..3)
       [] d = 14 -> [b EXCEPT !.L.scope = CASE w = 1 -> [@ EXCEPT ![2] = B("us-west-2")]
                                            [] w = 2 -> [@ EXCEPT ![3] = B("other")]
                                            [] OTHER -> [@ EXCEPT ![1] = B("20150829")]]
-      [] d = 16 -> [b EXCEPT !.sigmut = [kind |-> "flip", pos |-> IF w = 1 THEN 0 ELSE 63]]
+      [] d = 16 -> [b EXCEPT !.sigmut = CASE w = 1 -> [kind |-> "flip", pos |-> 0] [] w = 2 -> [kind |-> "flip", pos |-> 63]
+                                          [] OTHER -> [kind |-> "append", b |-> B("0")]]
 
 RECURSIVE InjectAll(_, _, _, _)
 InjectAll(b, ds, k, w) == IF k > Len(ds) THEN b ELSE InjectAll(Inject(b, ds[k], w), ds, k + 1, w)
@@ -157,11 +162,11 @@ FirstRuleOf(b) == Q(EnvOfWire(MkX(b.L)), b.cfg).err.rule
 \* ---------------------------------------------------------------- material
 Methods == <<B("GET"), B("POST"), B("DELETE"), B("PROPFIND"), B("M-SEARCH")>>
 Versions == <<"HTTP/1.1", "HTTP/0.9", "HTTP/1.0", "HTTP/2.0", "HTTP/3.0">>
-Paths   == <<B("/"), B("/a/b"), B("/a%20b/%7Ec/"), B("/a//b/./c/../d"), B("/%E2%82%AC/x*y"), B("/a/b/")>>
-Queries == << <<>>, B("a=1"), B("b=2&a=1&a=0"), B("a1=2&a=1&a-=3&A=4"), B("k=%20+%7e&k2=&k3"), B("x=%E2%82%AC&&y==z") >>
+Paths   == <<B("/"), B("/a//b/./c/../d"), B("/a%20b/%7Ec/"), B("/a/b"), B("/%E2%82%AC/x*y"), B("/a/b/")>>
+Queries == << <<>>, B("a=1"), B("b=2&a=1&a=0&m=dGVzdA=="), B("a1=2&a=1&a-=3&A=4"), B("k=%20+%7e&k2=&k3"), B("x=%E2%82%AC&&y==z") >>
 HdrSets == << <<>>,
               << <<B("X-Amz-Meta"), B("  a   b  ")>> >>,
-              << <<B("My-Header1"), B("v1")>>, <<B("my-header1"), B("v2 ,  v3")>> >>,
+              << <<B("My-Header1"), B("v1")>>, <<B("my-header1"), <<>> >>, <<B("My-header1"), B("v2 ,  v3")>>, <<B("MY-HEADER1"), B("  ")>> >>,
               << <<B("Content-Type"), B("text/plain")>>, <<B("X-Empty"), <<>> >> >>,
               << <<B("Zeta"), <<233, 32, 32, 9, 120>> >>, <<B("alpha"), B("1")>> >> >>
 Bodies  == << <<>>, B("hello world"), <<0, 255, 128, 10, 13>> >>
@@ -177,7 +182,7 @@ CarrierOf(k) == IF k = 1 THEN "hdr" ELSE "qry"
 
 \* a request with something in every component
 RichL(carrier) ==
-    LET L1 == [Bundle0(carrier).L EXCEPT !.method = B("POST"), !.path = B("/a%20b/c"), !.query = B("b=2&a=%20x&a=0"),
+    LET L1 == [Bundle0(carrier).L EXCEPT !.method = B("POST"), !.path = B("/a%20b/c"), !.query = B("b=2&a=%20x&a=0&m=dGVzdA==&f=c=d"),
                                         !.hdrs = @ \o << <<B("X-Amz-Meta"), B("a  b")>>, <<B("My-Header1"), B("v1")>>,
                                                         <<B("my-header1"), B("v2")>>, <<B("Unsigned"), B("u")>> >>,
                                         !.body = B("hello"), !.hasToken = TRUE, !.token = TokenV]
@@ -291,6 +296,12 @@ ScopeVariants == <<
     <<B("2015083"), B("us-east-1"), B("service"), B("aws4_request")>>,
     <<B("201508300"), B("us-east-1"), B("service"), B("aws4_request")>>,
     <<B("2015-08-30"), B("us-east-1"), B("service"), B("aws4_request")>>,
+    <<B("2015 0830"), B("us-east-1"), B("service"), B("aws4_request")>>,
+    <<B(" 20150830"), B("us-east-1"), B("service"), B("aws4_request")>>,
+    <<B("2015 8 30"), B("us-east-1"), B("service"), B("aws4_request")>>,
+    <<B("+20150830"), B("us-east-1"), B("service"), B("aws4_request")>>,
+    <<B("20150830T"), B("us-east-1"), B("service"), B("aws4_request")>>,
+    <<B("2015083O"), B("us-east-1"), B("service"), B("aws4_request")>>,
     << <<>>, B("us-east-1"), B("service"), B("aws4_request")>>,
     <<B("20150830"), B("us"), B("us-east"), B("aws4_request")>>,
     <<B("20150830"), <<195, 169>>, B("s3"), B("aws4_request")>> >>
@@ -325,12 +336,13 @@ SubSecond == << <<-900, -1>>, <<-900, 1>>, <<900, -1>>, <<900, 1>>, <<-900, -500
                 <<900, -500000000>>, <<900, 500000000>>, <<0, 1>>, <<0, -1>> >>
 Frac9(n) == <<46>> \o Dec(n, 9)
 RenderTs(inst, style) ==
-    LET off == CASE style = 3 -> 19800 [] style = 4 -> -9900 [] OTHER -> 0
+    LET off == CASE style = 3 -> 19800 [] style = 4 -> -9900 [] style = 6 -> 1800 [] style = 7 -> -2700 [] OTHER -> 0
         loc == AddSec(inst, off)
         f   == Fields(loc)
-        ext == style \in {2, 3}
+        ext == style \in {2, 3, 6}
         frac == IF inst[3] # 0 \/ style = 5 THEN Frac9(inst[3]) ELSE <<>>
-        zone == CASE style = 3 -> B("+05:30") [] style = 4 -> B("-0245") [] OTHER -> B("Z")
+        zone == CASE style = 3 -> B("+05:30") [] style = 4 -> B("-0245") [] style = 6 -> B("+00:30")
+                  [] style = 7 -> B("-0045") [] OTHER -> B("Z")
     IN Dec(f[1], 4) \o (IF ext THEN <<45>> ELSE <<>>) \o Dec(f[2], 2) \o (IF ext THEN <<45>> ELSE <<>>) \o Dec(f[3], 2)
        \o <<84>> \o Dec(f[4], 2) \o (IF ext THEN <<58>> ELSE <<>>) \o Dec(f[5], 2) \o (IF ext THEN <<58>> ELSE <<>>)
        \o Dec(f[6], 2) \o frac \o zone
@@ -421,6 +433,13 @@ DupCases == <<
     \* both carriers at once
     WithPost([HdrB EXCEPT !.L.both = TRUE], <<>>, NoOver),
     WithPost([QryB EXCEPT !.L.both = TRUE], <<>>, NoOver),
+    WithPost([HdrB EXCEPT !.L.query = B("X-Amz-Algorithm=AWS4-HMAC-SHA1")], <<>>, NoOver),
+    WithPost([HdrB EXCEPT !.L.query = B("X-Amz-Algorithm=")], <<>>, NoOver),
+    WithPost([HdrB EXCEPT !.L.query = B("X-Amz-Algorithm")], <<>>, NoOver),
+    WithPost([HdrB EXCEPT !.L.query = B("X-Amz-Algorithm=aws4-hmac-sha256")], <<>>, NoOver),
+    WithPost([HdrB EXCEPT !.L.query = B("X-Amz-Algorithm=AWS4-HMAC-SHA1&X-Amz-Algorithm=AWS4-HMAC-SHA256")], <<>>, NoOver),
+    WithPost([HdrB EXCEPT !.L.query = B("X%2DAmz%2DAlgorithm=other")], <<>>, NoOver),
+    WithPost([HdrB EXCEPT !.L.query = B("x-amz-algorithm=AWS4-HMAC-SHA256")], <<>>, NoOver),
     \* repeated X-Amz-* query parameters: the first one counts
     WithPost(QryB, << QUri(B("/?X-Amz-Algorithm=AWS4-HMAC-SHA256&X-Amz-Algorithm=AWS4-HMAC-SHA512&X-Amz-Credential=") \o Enc(CredOf(B("AKIDEXAMPLE")))
                           \o B("&X-Amz-Date=20150830T123600Z&X-Amz-SignedHeaders=host&X-Amz-Signature=") \o bSIG) >>, NoOver),
@@ -498,9 +517,9 @@ Dim(k) ==
             ELSE IF k <= Len(DefectList) + 1 THEN (IF NumSet(k - 1) >= Bound THEN 1 ELSE 2)
             ELSE IF k = Len(DefectList) + 2 THEN 3          \* witness
             ELSE 0
-      [] Family = "scripts"  -> V(<<3, 3, 3, 3, 4, 5>>, k)
+      [] Family = "scripts"  -> V(IF Bound = 1 THEN <<1, 3, 1, 3, 4, 6>> ELSE <<3, 3, 3, 3, 4, 6>>, k)
       [] Family = "leak_scripts" -> V(<<1, 3, 1, 3, 4, 2>>, k)
-      [] Family \in {"sigmut", "leak_sigmut"} -> V(<<2, 68>>, k)
+      [] Family \in {"sigmut", "leak_sigmut"} -> V(<<2, 72>>, k)
       [] Family = "base"     -> V(IF Bound = 0 THEN <<2, 2, 3, 3, 3, 2, 2, 2>> ELSE <<2, 4, 6, 6, 5, 3, 2, 2>>, k)
       [] Family = "mut_uri"  -> IF k = 1 THEN 2 ELSE IF k = 2 THEN Len(RichW(CarrierOf(idx[1])).uri) ELSE 0
       [] Family = "mut_hdr"  -> IF k = 1 THEN 2 ELSE IF k = 2 THEN Len(HdrPositions(RichW(CarrierOf(idx[1])))) ELSE 0
@@ -510,15 +529,17 @@ Dim(k) ==
       [] Family = "spell"    -> V(<<2, 3, NumSpell, 3>>, k)
       [] Family = "scope"    -> V(<<2, Len(ScopeCfgs), Len(ScopeVariants)>>, k)
       [] Family = "midnight" -> V(<<2, Len(MidnightCases)>>, k)
-      [] Family = "window"   -> V(<<2, IF Bound = 0 THEN 1 ELSE Len(WindowNows), NumOffsets + Len(SubSecond), 5>>, k)
-      [] Family = "reqs"     -> V(CASE Bound = 0 -> <<4, 4, 4, 3, 1, 1, 8>> [] Bound = 1 -> <<4, 4, 4, 3, 4, 2, 8>>
-                                    [] OTHER -> <<4, 4, 4, 3, 4, 2, 64>>, k)
+      [] Family = "window"   -> V(<<2, IF Bound = 0 THEN 1 ELSE Len(WindowNows), NumOffsets + Len(SubSecond), 7>>, k)
+      \* always-subset, ifin-subset, prefix-subset, letter case, header set, carrier, signed-list mask, container route
+      [] Family = "reqs"     -> V(CASE Bound = 0 -> <<2, 2, 4, 3, 1, 1, 8, 3>> [] Bound = 1 -> <<4, 4, 4, 3, 4, 2, 8, 3>>
+                                    [] OTHER -> <<4, 4, 4, 3, 4, 2, 64, 3>>, k)
       \* Bound 0: URL and body lists of <= 1 component, bodies as sent; 1: three lists (incl. the same name in both)
       \* with body variants and post-signing body flips; 2: every pair of lists of <= 2 components
       [] Family = "fold"     -> V(CASE Bound = 0 -> <<2, 7, 7, Len(ContentTypes), 2, 1, 1>>
                                     [] Bound = 1 -> <<2, 3, 3, Len(ContentTypes), 2, 3, 2>>
                                     [] OTHER -> <<2, 43, 43, Len(ContentTypes), 2, 1, 2>>, k)
       [] Family = "dup"      -> V(<<Len(DupCases)>>, k)
+      [] Family = "logical"  -> V(<<Len(Logical)>>, k)
       [] Family = "ct"       -> V(<<IF Bound = 0 THEN 1 ELSE 3, IF Bound = 0 THEN 1 ELSE 2, Len(CtPositions)>>, k)
       [] Family = "charsets" -> V(<<Len(CharsetLabels), IF Bound = 0 THEN 3 ELSE Len(CharsetBodies), 2>>, k)
       [] Family = "degenerate" -> V(<<Len(Degenerate), 2>>, k)
@@ -542,11 +563,11 @@ BundleOf ==
                 pend == <<0, 1, 3>>
                 outc == <<"ok", "sigerr", "foreign">>
                 kinds == <<"InvalidClientTokenId", "ExpiredToken", "SignatureDoesNotMatch", "InternalServiceError">>
-                dfs == <<0, 14, 16, 11, 8>>
+                dfs == <<0, 14, 16, 11, 8, 17>>      \* 17: rule 16 through an over-long signature
                 b2 == [b EXCEPT !.script = [readyIn |-> pend[idx[1]], ready |-> outc[idx[2]], pendIn |-> pend[idx[3]],
                                             answer |-> outc[idx[4]], errKind |-> kinds[idx[5]], principal |-> 40 + idx[1],
                                             secret |-> Secret1]]
-            IN IF dfs[idx[6]] = 0 THEN b2 ELSE Inject(b2, dfs[idx[6]], 1)
+            IN IF dfs[idx[6]] = 0 THEN b2 ELSE IF dfs[idx[6]] = 17 THEN Inject(b2, 16, 3) ELSE Inject(b2, dfs[idx[6]], 1)
       [] Family \in {"sigmut", "leak_sigmut"} ->
             LET b == Bundle0(CarrierOf(idx[1]))
                 k == idx[2]
@@ -554,7 +575,11 @@ BundleOf ==
                                       [] k = 65 -> [kind |-> "upper"]
                                       [] k = 66 -> [kind |-> "trunc", n |-> 63]
                                       [] k = 67 -> [kind |-> "append", b |-> B("0")]
-                                      [] k = 68 -> [kind |-> "empty"]]
+                                      [] k = 68 -> [kind |-> "empty"]
+                                      [] k = 69 -> [kind |-> "set", pos |-> 0, c |-> 90]     \* 64 characters, one of them not hex
+                                      [] k = 70 -> [kind |-> "set", pos |-> 63, c |-> 71]
+                                      [] k = 71 -> [kind |-> "fill", c |-> 90]              \* 'Z' x 64
+                                      [] k = 72 -> [kind |-> "fill", c |-> 48]]             \* '0' x 64
       [] Family = "base" ->
             LET b == Bundle0(CarrierOf(idx[1]))
                 L1 == [b.L EXCEPT !.method = Methods[idx[2]], !.path = Paths[idx[3]], !.query = Queries[idx[4]],
@@ -615,10 +640,10 @@ BundleOf ==
                 base  == IF idx[6] = 1 THEN <<B("host"), B("x-amz-date")>> ELSE <<B("host")>>
             IN [b EXCEPT !.L.hdrs = @ \o hs,
                          !.L.signed = SortLex(base \o SubsetOf(names, mask)),
-                         !.cfg.always = StyledSubset(ReqAlways, idx[1] - 1, style),
-                         !.cfg.ifin = StyledSubset(ReqIfIn, idx[2] - 1, style),
+                         !.cfg.always = StyledSubset(ReqAlways, IF Bound = 0 THEN 3 * (idx[1] - 1) ELSE idx[1] - 1, style),
+                         !.cfg.ifin = StyledSubset(ReqIfIn, IF Bound = 0 THEN 3 * (idx[2] - 1) ELSE idx[2] - 1, style),
                          !.cfg.prefix = StyledSubset(ReqPrefix, idx[3] - 1, style),
-                         !.cfg.reqimpl = ReqImpls[style]]
+                         !.cfg.reqimpl = ReqImpls[idx[8]]]
       [] Family = "fold" ->
             LET b    == Bundle0(CarrierOf(idx[1]))
                 ct   == ContentTypes[idx[4]]
@@ -633,6 +658,28 @@ BundleOf ==
                                   THEN << [k |-> "body", v |-> SetAt(body, Len(body), IF body[Len(body)] = 49 THEN 50 ELSE 49)] >>
                                   ELSE <<>>]
       [] Family = "dup" -> DupCases[idx[1]]
+      [] Family = "logical" ->
+            LET g  == Logical[idx[1]]
+                b  == Bundle0(g.carrier)
+                hs == [i \in 1..Len(g.hdrs) |-> <<g.hdrs[i][1], g.hdrs[i][2]>>]
+                inst == AddSec(NowBase, g.tsoff)
+                L1 == [b.L EXCEPT !.method = g.method, !.path = g.path, !.query = g.query, !.hdrs = @ \o hs,
+                                  !.body = g.body, !.hasToken = g.hasToken, !.token = IF g.hasToken THEN TokenV ELSE <<>>,
+                                  !.ts = RenderTs(inst, g.tsstyle), !.scope = [@ EXCEPT ![1] = ScopeDate(inst)]]
+                b2 == [b EXCEPT !.L = [L1 EXCEPT !.signed = SignAll(L1)], !.cfg.s3 = g.s3, !.cfg.fold = g.fold,
+                                !.script.principal = g.principal]
+                w  == MkX(b2.L)
+                hp == HdrPositions(w)
+                \* the proposed tampering, with positions reduced modulo the actual lengths
+                post == CASE g.mut = "none" -> <<>>
+                          [] g.mut = "uribyte" -> << [k |-> "uribyte", pos |-> (g.pos % Len(w.uri)) + 1] >>
+                          [] g.mut = "hdrbyte" -> IF hp = <<>> THEN <<>>
+                                                  ELSE << [k |-> "hdrbyte", h |-> hp[(g.pos % Len(hp)) + 1][1], pos |-> hp[(g.pos % Len(hp)) + 1][2]] >>
+                          [] g.mut = "body" -> IF w.body = <<>> THEN << [k |-> "body", v |-> B("x")] >>
+                                               ELSE << [k |-> "body", v |-> SetAt(w.body, (g.pos % Len(w.body)) + 1, OtherByte(w.body[(g.pos % Len(w.body)) + 1]))] >>
+                          [] g.mut = "spell" -> SpellRecipe(w, (g.pos % NumSpell) + 1)
+                          [] g.mut = "method" -> << [k |-> "method", v |-> B("PATCH")] >>
+            IN [b2 EXCEPT !.post = post]
       [] Family = "ct" ->
             LET b0 == CASE idx[1] = 1 -> Bundle0("hdr") [] idx[1] = 2 -> RichB("hdr")
                         [] idx[1] = 3 -> [Bundle0("hdr") EXCEPT !.L.path = B("/a/b"), !.L.query = B("x=1&y=2")]
